@@ -16,6 +16,15 @@ REGS = [("Guess", "かかない", "書かない"), ("Guess", "ためさない", 
         ("ProperNoun", "おやま", "小山"), ("CommonNoun", "くるま", "来馬"), ("Guess", "みない", "見ない"), ("Guess", "きない", "着ない")]
 
 
+PAST_FAILURE_D5B = [["confirm", "normal", "くるまで", "0", 91400000], ["register", "Guess", "ためさない", "試さない"], ["register", "Guess", "たかい", "高い"],
+                    ["register", "CommonNoun", "てすと", "試験"], ["confirm", "proper", "きやま", "0", 91401000], ["confirm", "numeral", "てすと", "0", 91401001],
+                    ["register", "Guess", "しずかだ", "静かだ"], ["confirm", "proper", "ためし", "0", 177801001], ["register", "Guess", "てすと", "試験"],
+                    ["confirm", "normal", "くるまで", "0", 264201001], ["register", "Guess", "べんきょうしない", "勉強しない"],
+                    ["confirm", "numeral", "きやま", "0", 350601001], ["register", "Guess", "てすと", "試験"], ["confirm", "normal", "しんかこか", "0", 437001001],
+                    ["register", "CommonNoun", "くるま", "来馬"], ["register", "Guess", "かかない", "書かない"], ["register", "ProperNoun", "おやま", "小山"],
+                    ["confirm", "foreign", "しんかこか", "3", 523401001], ["confirm", "numeral", "てすと", "0", 523402001]]
+
+
 def probes(r):
     out = {}
     for ctx in CTXS:
@@ -63,7 +72,28 @@ def run(run, replay=None):
                     r.confirm(len(r.sids) - 1, str((S.texts(res) or [""]).index(ts_[-1]) if ts_[-1] in (S.texts(res) or []) else 0), now + 3)
                     trace.append(["confirm", "numeral", "じ", ts_[-1], now + 3])
                     stats["confirmations"] += 2
-            for step in range(20 if thorough else 10):
+            if hi == 1:
+                # corpus: the history after which (before fix c5e9959) a restart flipped two equal-score candidates — the learned
+                # compound 新過去化 was in user.dic twice (replay C08-4ced3a8c15 of the thorough tier)
+                for st_ in PAST_FAILURE_D5B:
+                    if st_[0] == "register":
+                        res = r.register(*st_[1:])
+                        trace.append(list(st_))
+                        if res[0] == "ok":
+                            n_entries += 1
+                            r.settle(n_entries)
+                    else:
+                        _, ctx_, inp_, cid_, now_ = st_
+                        res = r.conv(ctx_, inp_)
+                        if res[0] == "ok" and res[1]["candidates"]:
+                            r.confirm(len(r.sids) - 1, cid_, now_)
+                            trace.append(list(st_))
+                            d = r.srv.dump()
+                            if d is not None and len(d["user_entries"]) > n_entries:
+                                n_entries = len(d["user_entries"])
+                                r.settle(n_entries)
+                now = 600_000_000
+            for step in range(20 if thorough else (10 if hi != 1 else 2)):
                 if rng.chance(1, 2):
                     reg = rng.pick(REGS)
                     res = r.register(*reg)
